@@ -94,6 +94,7 @@ def run(sid, props):
         for p in props:
             env = dict(os.environ, VERIF_REPLAY_DIR="/var/tmp/verif-seed/replays-%s-%s" % (sid, p))
             env.setdefault("VERIF_TIMEOUT", "600")
+            env["VERIF_EVIDENCE_DIR"] = "/var/tmp/verif-seed/evidence"
             t0 = time.time()
             r = subprocess.run([os.path.join(ROOT, "run"), p, os.environ.get("SEED_TIER", "quick")], env=env, stdout=subprocess.PIPE, stderr=subprocess.STDOUT, text=True, cwd=ROOT)
             dt = time.time() - t0
